@@ -127,7 +127,12 @@ func (e *ArEntry) Tarfile() (*tar.Reader, io.Closer, error) {
 	if !e.IsTarfile() {
 		return nil, nil, fmt.Errorf("%s appears to not be a tarfile", e.Name)
 	}
-	readCloser, err := DecompressorFor(filepath.Ext(e.Name))(e.Data)
+	/* Every tar stream gets its own view of the member, from its first byte:
+	 * the loader decompresses control.tar and data.tar this way, and the
+	 * members stay readable through Deb.ArContent (and through a second
+	 * Tarfile call) without the streams moving each other's read position. */
+	view := io.NewSectionReader(e.Data, 0, e.Data.Size())
+	readCloser, err := DecompressorFor(filepath.Ext(e.Name))(view)
 	if err != nil {
 		return nil, nil, err
 	}
